@@ -5,6 +5,7 @@ package main
 import (
 	"fmt"
 	"go/types"
+	"regexp"
 	"sort"
 	"strings"
 
@@ -300,6 +301,18 @@ func lookupDecl(p gengotypes.Package, d declRef) types.Object {
 	return nil
 }
 
+var siblingIdent = regexp.MustCompile(`\b([SNM])(\d+)\b`)
+
+// siblingFile: a second file of the same package with the same line structure — every declaration and every comment
+// of p.go has a counterpart on the same line number, under another name and with another text.  An index that forgets
+// which file a line belongs to answers p.go's questions from q.go.
+func siblingFile(src string) string {
+	s := siblingIdent.ReplaceAllString(src, "Q$1$2")
+	s = strings.ReplaceAll(s, "// ", "// other-file ")
+	s = strings.ReplaceAll(s, "/* ", "/* other-file ")
+	return s
+}
+
 func (c *layoutCase) eval(p gengotypes.Package) string {
 	return guard(func() string {
 		if p == nil {
@@ -354,7 +367,7 @@ func (c *layoutCase) Run() string {
 		return c.out
 	}
 	src, _, _ := c.render()
-	b := loadBatch([]map[string]string{{"p.go": src}})
+	b := loadBatch([]map[string]string{{"p.go": src, "q.go": siblingFile(src)}})
 	defer b.Close()
 	c.out, c.have = c.eval(b.Pkg(0)), true
 	return c.out
@@ -632,7 +645,7 @@ func layoutBatch(cases []Case) []string {
 		var pkgs []map[string]string
 		for _, c := range cases[start:end] {
 			src, _, _ := c.(*layoutCase).render()
-			pkgs = append(pkgs, map[string]string{"p.go": src})
+			pkgs = append(pkgs, map[string]string{"p.go": src, "q.go": siblingFile(src)})
 		}
 		b := loadBatch(pkgs)
 		for i, c := range cases[start:end] {
@@ -708,7 +721,7 @@ func init() {
 			Name: "layout", Quick: 800, Thorough: 8000, New: func() Case { return &layoutCase{} },
 			Gen:      func(r *Rng, i int) Case { return genLayout(r) },
 			BatchRun: layoutBatch, ShrinkBudget: 60, MaxShrinks: 6,
-			Rule: "source files of 1–3 sections (ungrouped var/type/const, struct fields, grouped const/var/type) × 1–7 rows among blank line, 1–3-line comment group (line or block comments, tag lines, go: prose), one- or three-line declaration with or without trailing comment, multi-name declarations; loaded with the real types.Load (400 packages per load); Doc and Comment of every declared name compared with the model on the same layout and with the layout's own ground truth; every name is asked twice and the harness scribbles over the first answer (lines, comment, tag map) in between: the second answer must be the same",
+			Rule: "source files of 1–3 sections (ungrouped var/type/const, struct fields, grouped const/var/type) × 1–7 rows among blank line, 1–3-line comment group (line or block comments, tag lines, go: prose), one- or three-line declaration with or without trailing comment, multi-name declarations; loaded with the real types.Load (400 packages per load); Doc and Comment of every declared name compared with the model on the same layout and with the layout's own ground truth; the package holds a second file with the same line structure under other names and with other comment texts; every name is asked twice and the harness scribbles over the first answer (lines, comment, tag map) in between: the second answer must be the same",
 		},
 		{
 			Name: "layout-enum", New: func() Case { return &layoutCase{} },
